@@ -584,7 +584,7 @@ impl Prop for C19Prop {
             Err(p) => {
                 // where it panicked identifies the defect
                 let site = p.0.rsplit(" @ ").next().unwrap_or("").to_string();
-                cx.fail("C19.panic", &format!("read_graphml_string panicked at {}", site.replace("/repo/", "")), format!("read_graphml_string panicked: {}; document: {:?}", p.0, doc.chars().take(1500).collect::<String>()));
+                cx.fail("C19.panic", &format!("read_graphml_string panicked at {}", rt::strip_repo(&site)), format!("read_graphml_string panicked: {}; document: {:?}", p.0, doc.chars().take(1500).collect::<String>()));
                 return;
             }
             Ok(Err(_)) => {
